@@ -184,3 +184,6 @@ pub mod c19;
 pub mod bundle;
 pub mod cutil;
 pub mod c25;
+pub mod c01;
+pub mod c01gen;
+pub mod c01vec;
